@@ -87,7 +87,12 @@ def check_ledger(res, name, src):
         except Exception as ex:
             res.violation('h14:journal-pattern-quoting', 'JOURNAL accepts every account pattern the string literal can denote', {'ledger': name, 'statement': stmt}, f'{type(ex).__name__}: {ex}', '[]')
     # PRINT
-    for frm in ['', ' year = 2020', " type = 'transaction'", ' OPEN ON 2020-01-15 CLOSE ON 2020-02-10', ' CLOSE ON 2020-02-01 CLEAR', " flag = '!'", ' month = 2 OPEN ON 2020-01-03']:
+    D = datetime.date
+    for frm, kw in [('', {}), (' year = 2020', {}), (" type = 'transaction'", {}),
+                    (' OPEN ON 2020-01-15 CLOSE ON 2020-02-10', dict(open=D(2020, 1, 15), close=D(2020, 2, 10))),
+                    (' CLOSE ON 2020-02-01 CLEAR', dict(close=D(2020, 2, 1), clear=True)), (" flag = '!'", {}),
+                    (' month = 2 OPEN ON 2020-01-03', dict(open=D(2020, 1, 3))), (' CLOSE', dict(close=True)), (' CLEAR', dict(clear=True)),
+                    (' year = 2020 OPEN ON 2020-02-01 CLOSE ON 2020-03-01 CLEAR', dict(open=D(2020, 2, 1), close=D(2020, 3, 1), clear=True))]:
         stmt = 'PRINT' + (f' FROM{frm}' if frm else '')
         res.case((name, stmt))
         try:
@@ -99,7 +104,9 @@ def check_ledger(res, name, src):
             continue
         # the directives satisfying the FROM expression after OPEN/CLOSE/CLEAR, in ledger order
         ids = [r[0] for r in conn.execute('SELECT id FROM #entries' if not frm else f'SELECT id FROM #entries WHERE id IN (SELECT id FROM #entries)').fetchall()] if False else None
-        table = c_print.table
+        # reference: the connection's entries table with the qualifiers written in the statement (BeanTable.update / prepare
+        # are under T1 contracts in C13), not the table object the compiled statement happens to carry
+        table = conn.tables['entries'].update(**{'open': None, 'close': None, 'clear': None, **kw})
         want_entries = [row.entry for row in table if c_print.where is None or c_print.where(row)]
         back, errors, _ = loader.load_string(out.getvalue())
         strip = lambda e: e._replace(meta={k: v for k, v in e.meta.items() if k not in ('filename', 'lineno') and not k.startswith('__')},
